@@ -34,7 +34,7 @@ def check_tabeam(ctx, n, fs=False):
         ctx.violation("size_count", "TABEAM %s block: declared %d, holds %d, expected %d (nr=%d nrho=%d)" % (b["kw"], b["n"], len(b["values"]), want, nr, nrho), what="size_count")
         return False
       for i in sorted(set([0, 1, want // 2, want - 2, want - 1])):
-        if 0 <= i < want and abs(float(b["values"][i]) - i * step) > 1e-6:
+        if 0 <= i < want and not (abs(float(b["values"][i]) - i * step) <= 1e-6):
           ctx.violation("size_value", "TABEAM %s block of %d values: value %d is %s, expected %s" % (b["kw"], want, i, b["values"][i], i * step), what="size_value")
           return False
     ctx.count("sizes_checked")
@@ -79,10 +79,10 @@ def check_lammps(ctx, n):
         if 0 <= i < N:
           row = s["rows"][i]
           r = (i + 1) * dr
-          if row[0] != str(i + 1) or abs(float(row[1]) - r) > 1e-8 or abs(float(row[2]) - (k + 1) * r) > 1e-7 * max(1.0, r) or abs(float(row[3]) + (k + 1)) > 1e-4:
+          if row[0] != str(i + 1) or not (abs(float(row[1]) - r) <= 1e-8 and abs(float(row[2]) - (k + 1) * r) <= 1e-7 * max(1.0, r) and abs(float(row[3]) + (k + 1)) <= 1e-4):
             ctx.violation("size_value", "LAMMPS nr=%d (%s) block %d row %d: %s" % (n, route, k, i + 1, row), what="size_value")
             return False
-      if abs(float(s["lo_tok"]) - dr) > 1e-8 or abs(float(s["hi_tok"]) - cutoff) > 1e-8:
+      if not (abs(float(s["lo_tok"]) - dr) <= 1e-8 and abs(float(s["hi_tok"]) - cutoff) <= 1e-8):
         ctx.violation("size_value", "LAMMPS nr=%d header R %s %s" % (n, s["lo_tok"], s["hi_tok"]), what="size_value")
         return False
     ctx.count("sizes_checked")
@@ -119,7 +119,7 @@ def check_dlpoly(ctx, n):
         return False
       for i in sorted(set([0, 1, n // 2, n - 2, n - 1])):
         r = (i + 1) * delpot
-        if abs(float(b["energies"][i]) - (k + 1) * r) > 2e-7 * r or abs(float(b["forces"][i]) + (k + 1) * r) > 1e-4 * r:
+        if not (abs(float(b["energies"][i]) - (k + 1) * r) <= 2e-7 * r and abs(float(b["forces"][i]) + (k + 1) * r) <= 1e-4 * r):
           ctx.violation("size_value", "DL_POLY nr=%d (%s) block %d point %d: E=%s F=%s expected %s %s" % (n, route, k, i + 1, b["energies"][i], b["forces"][i], (k + 1) * r, -(k + 1) * r), what="size_value")
           return False
     ctx.count("sizes_checked")
@@ -154,7 +154,7 @@ def check_setfl(ctx, n, fs=False):
       for i in sorted(set([0, 1, want // 2, want - 2, want - 1])):
         x = i * step
         ref = x * x if sq else x
-        if 0 <= i < want and abs(float(toks[i]) - ref) > 1e-9 * max(1.0, ref):
+        if 0 <= i < want and not (abs(float(toks[i]) - ref) <= 1e-9 * max(1.0, ref)):
           ctx.violation("size_value", "setfl %s[%d] = %s, expected %s (n=%d)" % (name, i, toks[i], ref, want), what="size_value")
           return False
     ctx.count("sizes_checked")
@@ -183,7 +183,7 @@ def check_gulp(ctx, n):
       return False
     for i in sorted(set([0, 1, n // 2, n - 2, n - 1])):
       r = i * dr
-      if 0 <= i < n and (abs(float(rows[i][1]) - r) > 1e-9 * max(1.0, r) or abs(float(rows[i][0]) - (k + 1) * r) > 1e-9 * max(1.0, r)):
+      if 0 <= i < n and not (abs(float(rows[i][1]) - r) <= 1e-9 * max(1.0, r) and abs(float(rows[i][0]) - (k + 1) * r) <= 1e-9 * max(1.0, r)):
         ctx.violation("size_value", "GULP nr=%d block %d row %d: %s" % (n, k, i, rows[i]), what="size_value")
         return False
   ctx.count("sizes_checked")
